@@ -25,6 +25,7 @@ RULE = (
 )
 RULE += '; the function may raise an Exception whose instance is falsy'
 RULE += "; built-in exception classes (InvalidStateError, RuntimeError, LookupError, AssertionError ...) as the function's outcome"
+RULE += '; the decorated function may have been used under another event loop before; the callable may be a functools.partial or an object with an async __call__'
 LEVEL_TEXT = (
     "Single-fault enumeration: the caller cancellation is injected at every instant of a complete integer time grid "
     "around the function's end and the deadline, for every outcome kind; the oracle is a case analysis on the earliest "
@@ -116,6 +117,8 @@ def _run_timed(case, inject_iter):
 
     async def main(loop):
         async def fn(x, *, k):
+            if x == "warm":
+                return "warm"  # the earlier call under ANOTHER event loop (see "second_loop")
             if x == "bg":
                 # an unrelated, overlapping call of the SAME decorated function: it ends (by itself) while the judged
                 # call is in flight and must not touch the judged call's deadline, outcome or cancellation
@@ -123,7 +126,7 @@ def _run_timed(case, inject_iter):
                 if bg.get("out") == "exc":
                     raise FnErr("bg")
                 return "bg"
-            flags["started"] = loop.time()
+            flags["started"] = asyncio.get_running_loop().time()
             flags["args"] = (x, k)
             try:
                 try:
@@ -133,7 +136,7 @@ def _run_timed(case, inject_iter):
                         for _ in range(steps):
                             await asyncio.sleep(d / steps)
                 except asyncio.CancelledError:
-                    flags["cancel_seen"] = loop.time() - holder.get("origin", t0)
+                    flags["cancel_seen"] = asyncio.get_running_loop().time() - holder.get("origin", t0)
                     flags["cancel_count"] += 1
                     if kind == "ignore":
                         await asyncio.sleep(e)
@@ -158,9 +161,32 @@ def _run_timed(case, inject_iter):
                     await asyncio.sleep(0)
                     raise AssertionError("unreachable")
             finally:
-                flags["ended"] = loop.time()
+                flags["ended"] = asyncio.get_running_loop().time()
 
-        wrapped = timeout(tau)(fn)
+        # "second_loop": the decorated function was already used - to completion - under another event loop (a second
+        # asyncio.run, a per-test loop); "callable": what is decorated is not a plain function (a functools.partial of one,
+        # an object with an async __call__) - both are the same wrapped function as far as the caller can tell
+        if "wrapped" in holder:
+            wrapped = holder["wrapped"]
+        else:
+            target = fn
+            if case.get("callable") == "partial":
+                import functools
+
+                async def fn3(_extra, x, *, k):
+                    return await fn(x, k=k)
+
+                target = functools.partial(fn3, "extra")
+            elif case.get("callable") == "object":
+
+                class _Callable:
+                    async def __call__(self, x, *, k):
+                        return await fn(x, k=k)
+
+                target = _Callable()
+            wrapped = holder["wrapped"] = timeout(tau)(target)
+        if holder.get("warming"):
+            return await wrapped("warm", k=8)
         obs: dict = {}
 
         async def caller():
@@ -216,6 +242,14 @@ def _run_timed(case, inject_iter):
                 t.cancel()
 
         hooks[inject_iter] = hook
+    if case.get("second_loop"):
+        holder["warming"] = True
+        warm = vloop.run(main)
+        holder["warming"] = False
+        # its own outcome is not judged here (with a zero timeout it times out, rightly): only that it ends
+        if warm.outcome == "hang":
+            out.violate("term", f"C16.term/earlier-call-under-another-loop-never-finished/{kind}", "")
+            return out, 0
     res = vloop.run(main, hooks=hooks)
     if res.outcome == "raise":
         raise res.value
@@ -371,6 +405,8 @@ def enumerate_cases(tier):
     for d, tau, c in itertools.product([0, 1, 2, 3], [1, 2, 3], [None, 0, 1, 2]):
         yield {"d": d, "steps": 1, "outcome": "exc_timeout", "e": 2, "tau": tau, "c": c}
         yield {"d": d, "steps": 1, "outcome": "exc_falsy", "e": 2, "tau": tau, "c": c}
+    for d, tau, c, kind, extra in itertools.product([0, 1, 3], [2], [None, 1], KINDS, [{"second_loop": True}, {"callable": "partial"}, {"callable": "object"}]):
+        yield {"d": d, "steps": 1, "outcome": kind, "e": 2, "tau": tau, "c": c, **extra}
     for d, tau, c, name in itertools.product([0, 1, 3], [2], [None, 1], list(_BUILTIN_EXC)):
         yield {"d": d, "steps": 1, "outcome": f"exc_b_{name}", "e": 2, "tau": tau, "c": c}
     # two overlapping calls of ONE decorated function: an earlier call ends (value / exception / its own timeout) while the
@@ -385,7 +421,7 @@ def enumerate_cases(tier):
 def strategy(tier):
     eighth = st.integers(0, 48).map(lambda n: n / 8)
     return st.builds(
-        lambda d, steps, kind, e, tau, c, t0, bg, sc: {"d": d, "steps": steps, "outcome": kind, "e": e, "tau": tau, "c": c, "t0": t0, "bg": bg, "in_scope": sc},
+        lambda d, steps, kind, e, tau, c, t0, bg, sc, sl, cb: {"d": d, "steps": steps, "outcome": kind, "e": e, "tau": tau, "c": c, "t0": t0, "bg": bg, "in_scope": sc, "second_loop": sl, "callable": cb},
         eighth,
         st.sampled_from([1, 2, 4]),
         st.sampled_from(KINDS + EXTRA_KINDS),
@@ -399,6 +435,8 @@ def strategy(tier):
             st.builds(lambda lead, dbg, o: {"lead": lead, "d": lead + dbg, "out": o}, st.sampled_from([0.125, 0.5, 1]), st.sampled_from([0.125, 0.25, 1.5, 2.5]), st.sampled_from(["value", "exc"])),
         ),
         st.sampled_from([False, False, True]),
+        st.sampled_from([False, False, False, True]),
+        st.sampled_from([None, None, None, "partial", "object"]),
     )
 
 
